@@ -165,12 +165,13 @@ def run(scn, prefix, keep_trace=False, strict=True):
                         del pending[i]
                         break
                 c = w.conns[cn]
+                idle = boundary and not loop.has_ready() and not loop.jobs
                 if fr == DROP:
-                    c.drop()
+                    c.drop(idle)
                 else:
-                    c.deliver(fr if isinstance(fr, str) else json.dumps(fr, ensure_ascii=False))
+                    c.deliver(fr if isinstance(fr, str) else json.dumps(fr, ensure_ascii=False), idle)
             elif k == "drop":
-                w.conns[act[1]].drop()
+                w.conns[act[1]].drop(boundary and not loop.has_ready() and not loop.jobs)
                 x.dropped_env.add(act[1])
             elif k == "unstall":
                 w.conns[act[1]].unstall()
